@@ -6,6 +6,9 @@ CONSTANTS
   Topos <- ToposTiny
   Strict = TRUE
   Breaker = FALSE
+  RejectKinds = {"open"}
+  CancelSet <- CancelNever
+  CtxKinds = {"cancel", "deadline"}
   KeepSeen = TRUE
   BudgetSet = {0}
 INVARIANT AckSound
